@@ -225,3 +225,56 @@ Example C04_converse_hypotheses_satisfiable :
 Proof.
   split; [apply (proj1 (ostart_spec cfg0 0 0 0 []))|]. vm_compute. repeat split; reflexivity.
 Qed.
+
+(* ================= composed: nothing but the received octets and the database are inputs =================
+   Outstation/Full.v composes the session model with the digest computed from the octets (`frag_digest`,
+   App/Grammar.v) and the database model answering the session's calls (`replay`).  `fstep F st (FRx from bc bytes)`
+   is one reception in that model, `FReach` its reachable states (start-up `fstart`, then any `fstep`: receptions,
+   time, the user's database transactions ...).  The log of a step (`snd (fstep ..)`) holds the session's
+   observations as `FObs o`.  Outstation/FullCorollaries.v. *)
+From Dnp3V Require Import App.Grammar Outstation.Full.
+From Dnp3V Require Outstation.SessionC03Proofs.
+From Dnp3V Require Import Outstation.FullCorollaries.
+
+(* what a reception is in the composed model: the session event carries `frag_digest bytes`, the database is
+   the state's (frx_out = fevent_out F st (fs_db st) (ERx from bc bytes (frag_digest bytes))) *)
+Theorem C04_composed_reception_spec : forall F st from bc bytes,
+  fstep F st (FRx from bc bytes) =
+  ({| fs_s := ro_s (frx_out F st from bc bytes); fs_db := ro_db (frx_out F st from bc bytes) |},
+   FDigest (frag_digest bytes) (frag_rv_code bytes) :: ro_log (frx_out F st from bc bytes)).
+Proof. exact fstep_frx. Qed.
+Print Assumptions C04_composed_reception_spec.
+
+(* C04_sbo_operate_needs_matching_select through the parser: a select-before-operate callback appears in the
+   log of a reception only if the fragment is unicast, from an accepted master (accepted_master: any master
+   allowed, or `from` is the configured one), a well-formed request (wf_request: header parses, FIR FIN, objects
+   parse) whose octet 1 is 4 (OPERATE) and whose octet 0 has FIR, FIN set and UNS clear, and the session holds a
+   select recorded for exactly the octets from octet 2 on, with the preceding sequence number, taken at the
+   fragment read immediately before, not older than the select timeout *)
+Theorem C04_composed_sbo_operate_needs_matching_select : forall F st from bc bytes g v idx obj,
+  SessionC03Proofs.FReach F st ->
+  In (FObs (OCb (CbOperate g v idx OpSbo obj))) (snd (fstep F st (FRx from bc bytes))) ->
+  bc = None /\ accepted_master (f_o F) from /\ wf_request bytes /\
+  exists c rest sel,
+    bytes = c :: 4 :: rest /\
+    N.testbit c 7 = true /\ N.testbit c 6 = true /\ N.testbit c 4 = false /\
+    s_select (fs_s st) = Some sel /\
+    ss_objects sel = rest /\
+    seq16_next (ss_seq sel) = c mod 16 /\
+    (ss_frame_id sel + 1) mod 4294967296 = (s_frame_id (fs_s st) + 1) mod 4294967296 /\
+    (s_now (fs_s st) - ss_time sel <= o_select_ms (f_o F))%Z.
+Proof. exact frx_sbo_operate_needs_matching_select. Qed.
+Print Assumptions C04_composed_sbo_operate_needs_matching_select.
+
+(* non-vacuity (computed in FullCorollaries by vm_compute): after the SELECT `C5 03 0C 01 17 01 07 <crob>` the
+   OPERATE `C6 04 ...` with the same objects calls the handler; without the select, or with sequence number 7
+   instead of 6, it does not *)
+Example C04_composed_instance :
+  SessionC03Proofs.FReach cx_F cx_selected /\
+  In (FObs (OCb (CbOperate 12 1 7 OpSbo cx_crob))) (snd (fstep cx_F cx_selected (FRx 1 None cx_op))) /\
+  s_select (fs_s cx_selected) = Some {| ss_seq := 5; ss_frame_id := 1; ss_time := 0; ss_objects := cx_objs |} /\
+  s_frame_id (fs_s cx_selected) = 1 /\
+  has_sbo (snd (fstep cx_F cx_st0 (FRx 1 None cx_op))) = false /\
+  has_sbo (snd (fstep cx_F cx_selected (FRx 1 None ([199; 4] ++ cx_objs)))) = false /\
+  SessionC03Proofs.has_replay_error (snd (fstep cx_F cx_selected (FRx 1 None cx_op))) = false.
+Proof. exact ex_frx_sbo_operate. Qed.
